@@ -193,6 +193,7 @@ class Interp:
         self.prestate_ids = set()
         self.writes = []            # (line, func, target descr, fresh?)
         self.modular = True          # use contracts at call sites
+        self.inline_set = set()      # ... except for these functions (lemma harnesses that compose real bodies)
         self.verifying = None        # qualname of the function under verification (its own contract is not used at depth 0)
         self.contract_uses = []
         self.inlined = set()
@@ -1099,6 +1100,10 @@ class Interp:
             if isinstance(a, (set, SSet)) and isinstance(b, (set, SSet)):
                 return self.set_op('diff', a, b)
         elif isinstance(op, ast.Mult):
+            if isinstance(a, list) and isinstance(b, int) and not isinstance(b, bool):
+                return list(a) * b
+            if isinstance(b, list) and isinstance(a, int) and not isinstance(a, bool):
+                return list(b) * a
             if isinstance(a, (str, SStr)) and _intlike(b):
                 return self.str_repeat(a, b)
             if isinstance(b, (str, SStr)) and _intlike(a):
@@ -1298,6 +1303,8 @@ class Interp:
                 return False
         if isinstance(a, (str, SStr)) != isinstance(b, (str, SStr)):
             return False
+        if isinstance(a, (ClassInfo, BuiltinExcClass)) and isinstance(b, (ClassInfo, BuiltinExcClass)):
+            return a is b or (isinstance(a, BuiltinExcClass) and isinstance(b, BuiltinExcClass) and a.name == b.name)   # classes compare by identity
         raise Unsupported(f'== on {type(a).__name__}, {type(b).__name__}')
 
     def order(self, op, a, b):
@@ -1427,6 +1434,8 @@ class Interp:
             if attr == '__new__':
                 return NativeFn(lambda c, *a, **k: SObj(c, True), '__new__')
             self.raise_py('AttributeError')
+        if isinstance(obj, BuiltinExcClass) and attr == '__name__':
+            return obj.name
         if isinstance(obj, (EnumVal, SEnum)):
             if attr == 'value':
                 return self.enum_value(obj)
@@ -1944,7 +1953,7 @@ class Interp:
         # modular call: use the contract when there is one
         if self.registry is not None and self.modular and not force_inline:
             c = self.registry.for_call(f.qualname)
-            if c is not None and not (self.depth == 0 and self.verifying == f.qualname):
+            if c is not None and f.qualname not in self.inline_set and not (self.depth == 0 and self.verifying == f.qualname):
                 return self.registry.apply_contract(self, c, f, args, kwargs)
         if self.depth > 0 and not f.module.name.startswith('contracts') and f.qualname != self.verifying:
             self.inlined.add(f.qualname)
